@@ -20,7 +20,7 @@ use crate::config::RegExpConfig;
 use crate::dfa::Dfa;
 use crate::expression::Expression;
 use itertools::Itertools;
-use regex::{Regex, RegexBuilder};
+use regex::{Captures, Regex, RegexBuilder};
 use std::cmp::{Ordering, Reverse};
 use std::fmt::{Display, Formatter, Result};
 
@@ -142,15 +142,31 @@ impl<'a> RegExp<'a> {
         expr: &Expression,
         config: &RegExpConfig,
     ) -> std::result::Result<Regex, regex::Error> {
+        let mut pattern = expr.to_string();
+
         if config.is_output_colorized {
             let color_replace_regex = Regex::new("\u{1b}\\[(?:\\d+;\\d+|0)m").unwrap();
-            Self::compile_regex(
-                &color_replace_regex.replace_all(&expr.to_string(), ""),
-                config,
-            )
-        } else {
-            Self::compile_regex(&expr.to_string(), config)
+            pattern = color_replace_regex.replace_all(&pattern, "").to_string();
         }
+
+        if config.is_astral_code_point_converted_to_surrogate {
+            // Surrogate pairs are meant for other regex engines and are rejected by the regex crate.
+            // For the match check, each pair is written as the code point it stands for.
+            let surrogate_pair_regex =
+                Regex::new(r"\\u\{(d[89ab][0-9a-f]{2})\}\\u\{(d[c-f][0-9a-f]{2})\}").unwrap();
+            pattern = surrogate_pair_regex
+                .replace_all(&pattern, |caps: &Captures| {
+                    let high = u32::from_str_radix(&caps[1], 16).unwrap();
+                    let low = u32::from_str_radix(&caps[2], 16).unwrap();
+                    format!(
+                        "\\u{{{:x}}}",
+                        0x10000 + ((high - 0xd800) << 10) + (low - 0xdc00)
+                    )
+                })
+                .to_string();
+        }
+
+        Self::compile_regex(&pattern, config)
     }
 
     fn compile_regex(
